@@ -2,6 +2,7 @@
    are explored modulo `erase`; a finite set of erased states that contains the initial state and is closed
    under every move contains (the erasure of) every reachable state.  The per-run check uses it to turn
    "the search found no schedule" into a kernel-checked "no schedule exists" (code 2). *)
+From Coq Require Import FMapPositive.
 From C17 Require Import Model Spec Steps.
 
 (* ---- decidable equality (only soundness is needed) ---- *)
@@ -273,19 +274,37 @@ Proof.
 Qed.
 
 (* ---- exploration ---- *)
+Module PM := PositiveMap.
 Definition estep (s : state) (i k : nat) : option state := option_map erase (step s i k).
-Definition mem_state (t : state) (l : list state) : bool := existsb (state_eqb t) l.
 Definition succs (s : state) : list state :=
   flat_map (fun i => match nth_error (rs s) i with
                      | Some r => flat_map (fun k => match estep s i k with Some t => [t] | None => [] end) (seq 0 (max_choice r))
                      | None => [] end) (seq 0 (length (rs s))).
-Fixpoint add_new (ts seen : list state) : list state * list state :=   (* (new ones, seen extended) *)
+
+(* a cheap hash of a state; any function would do for the proofs *)
+Definition mix (h v : N) : N := N.modulo (h * 31 + v + 7) 1048573.
+Definition key_routine (r : routine) : N :=
+  fold_left (fun h f => mix (mix h (N.of_nat (length (fops f)))) (match fk f with KPlain => 0 | KLock m => 1 + N.of_nat m | KCatch => 100 end))
+            (stk r) (mix (mix (N.of_nat (length (log r))) (if unw r then 1 else 0)) (Z.to_N (Z.abs (acc r)))).
+Definition key (s : state) : positive :=
+  N.succ_pos (fold_left (fun h r => mix h (key_routine r)) (rs s)
+               (fold_left (fun h ch => mix h (N.of_nat (length (q ch)) + (if closed ch then 50 else 0))) (chs s)
+                  (fold_left (fun h z => mix h (Z.to_N (Z.abs z))) (mem s) 0%N))).
+
+Definition sset := PM.t (list state).
+Definition memb (t : state) (m : sset) : bool :=
+  match PM.find (key t) m with Some l => existsb (state_eqb t) l | None => false end.
+Definition insert (t : state) (m : sset) : sset :=
+  PM.add (key t) (t :: match PM.find (key t) m with Some l => l | None => [] end) m.
+Definition all_states (m : sset) : list state := flat_map snd (PM.elements m).
+
+Fixpoint add_new (ts : list state) (seen : sset) : list state * sset :=   (* (new ones, seen extended) *)
   match ts with
   | [] => ([], seen)
-  | t :: ts' => if mem_state t seen then add_new ts' seen
-                else let '(n, sn) := add_new ts' (t :: seen) in (t :: n, sn)
+  | t :: ts' => if memb t seen then add_new ts' seen
+                else let '(n, sn) := add_new ts' (insert t seen) in (t :: n, sn)
   end.
-Fixpoint explore (fuel : nat) (todo seen : list state) : option (list state) :=
+Fixpoint explore (fuel : nat) (todo : list state) (seen : sset) : option sset :=
   match fuel with
   | O => None
   | S fuel' =>
@@ -294,17 +313,18 @@ Fixpoint explore (fuel : nat) (todo seen : list state) : option (list state) :=
       | s :: todo' => let '(n, sn) := add_new (succs s) seen in explore fuel' (n ++ todo') sn
       end
   end.
-Definition closedb (St : list state) : bool := forallb (fun s => forallb (fun t => mem_state t St) (succs s)) St.
+Definition closedb (m : sset) : bool := forallb (fun s => forallb (fun t => memb t m) (succs s)) (all_states m).
 
 Lemma erased_erase : forall s, erased (erase s).
 Proof. intros. apply erase_idem. Qed.
-Lemma estep_erased : forall s i k t, estep s i k = Some t -> erased t.
-Proof. unfold estep; intros. destruct (step s i k); inversion H; subst. apply erased_erase. Qed.
 
-Lemma mem_state_In : forall t l, erased t -> Forall erased l -> mem_state t l = true -> In t l.
+Lemma memb_In : forall t m, erased t -> Forall erased (all_states m) -> memb t m = true -> In t (all_states m).
 Proof.
-  intros t l ET F M. unfold mem_state in M. apply existsb_exists in M. destruct M as (x & IN & E).
-  rewrite Forall_forall in F. rewrite (state_eqb_sound _ _ ET (F _ IN) E). auto.
+  intros t m ET F M. unfold memb in M. destruct (PM.find (key t) m) as [l|] eqn:FD; try discriminate.
+  apply existsb_exists in M. destruct M as (x & IN & E).
+  assert (INX : In x (all_states m)).
+  { unfold all_states. apply in_flat_map. exists (key t, l). split; auto. apply PM.elements_correct. auto. }
+  rewrite Forall_forall in F. rewrite (state_eqb_sound _ _ ET (F _ INX) E). auto.
 Qed.
 
 Lemma succs_complete : forall s i k t, estep s i k = Some t -> In t (succs s).
@@ -321,15 +341,15 @@ Proof.
 Qed.
 
 (* a closed set of erased states containing the initial one contains every reachable state (erased) *)
-Theorem closed_contains_reachable : forall p St, Forall erased St -> In (erase (init p)) St -> closedb St = true ->
-  forall s, reach p s -> In (erase s) St.
+Theorem closed_contains_reachable : forall p m, Forall erased (all_states m) -> In (erase (init p)) (all_states m) ->
+  closedb m = true -> forall s, reach p s -> In (erase s) (all_states m).
 Proof.
-  intros p St ER I0 CL s R. apply (reach_ind p (fun s => In (erase s) St)); auto.
+  intros p m ER I0 CL s R. apply (reach_ind p (fun s => In (erase s) (all_states m))); auto.
   intros s0 i k s1 _ IN ST.
   assert (E : estep (erase s0) i k = Some (erase s1)).
   { unfold estep. rewrite erase_step. rewrite ST. reflexivity. }
   unfold closedb in CL. rewrite forallb_forall in CL. assert (C := CL _ IN). rewrite forallb_forall in C.
-  apply mem_state_In; auto. apply erased_erase. apply C. eapply succs_complete; eauto.
+  apply memb_In; auto. apply erased_erase. apply C. eapply succs_complete; eauto.
 Qed.
 
 Definition is_nil {A} (l : list A) : bool := match l with [] => true | _ => false end.
@@ -347,8 +367,9 @@ Qed.
 (* the verified verdict: no state the program can reach shows observation o *)
 Definition exhaustive_none (fuel : nat) (p : prog) (o : obs) : bool :=
   let e0 := erase (init p) in
-  match explore fuel [e0] [e0] with
-  | Some St => forallb erasedb St && mem_state e0 St && closedb St && negb (existsb (fun s => matches s o) St)
+  match explore fuel [e0] (insert e0 (PM.empty _)) with
+  | Some m => let l := all_states m in
+              forallb erasedb l && memb e0 m && closedb m && negb (existsb (fun s => matches s o) l)
   | None => false
   end.
 
@@ -356,13 +377,13 @@ Theorem exhaustive_none_sound : forall fuel p o, exhaustive_none fuel p o = true
   forall s, reach p s -> matches s o = false.
 Proof.
   unfold exhaustive_none; intros fuel p o H s R.
-  destruct (explore fuel [erase (init p)] [erase (init p)]) as [St|]; try discriminate.
+  destruct (explore fuel [erase (init p)] (insert (erase (init p)) (PM.empty _))) as [m|]; try discriminate.
   repeat (apply andb_true_iff in H; destruct H as [H ?]).
-  assert (ER : Forall erased St).
+  assert (ER : Forall erased (all_states m)).
   { apply Forall_forall. intros x IN. rewrite forallb_forall in H. apply erasedb_sound; auto. }
-  assert (I0 : In (erase (init p)) St) by (apply mem_state_In; auto; apply erased_erase).
-  assert (IN := closed_contains_reachable p St ER I0 H1 s R).
+  assert (I0 : In (erase (init p)) (all_states m)) by (apply memb_In; auto; apply erased_erase).
+  assert (IN := closed_contains_reachable p m ER I0 H1 s R).
   apply negb_true_iff in H0. rewrite <- matches_erase.
   destruct (matches (erase s) o) eqn:M; auto.
-  assert (X : existsb (fun s => matches s o) St = true) by (apply existsb_exists; eauto). congruence.
+  assert (X : existsb (fun s => matches s o) (all_states m) = true) by (apply existsb_exists; eauto). congruence.
 Qed.
